@@ -120,6 +120,13 @@ class EqRoles(object):
         eq = equalizer(repo)
         self.eq = eq
         self.run = eq.lookup('run_comparison')
+        self.entry = self.run
+        # the public entry may hand back a generator written as a separate method: the loop lives there
+        if self.run is not None and not self.run.is_generator:
+            for n in ast.walk(self.run.node):
+                if isinstance(n, ast.Return) and isinstance(n.value, ast.Call) and self_attr(n.value.func) and eq.lookup(n.value.func.attr) is not None and \
+                        eq.lookup(n.value.func.attr).is_generator:
+                    self.run = eq.lookup(n.value.func.attr)
         self.pac = eq.lookup('_play_and_compare_recording')          # patched by the tests: stable
         self.kill = eq.lookup('_kill_compare_process')               # patched by the tests: stable
         self.create = eq.lookup('_create_new_player_process')        # patched by the tests: stable
@@ -142,7 +149,7 @@ class EqRoles(object):
                     eq.lookup(n.func.attr) not in (self.pac,) and not eq.lookup(n.func.attr).is_static:
                 self.dispatch = eq.lookup(n.func.attr)
         # recycle routine: calls create
-        rec = [m for m in eq.methods.values() if m is not self.create and calls(m, self.create.name)]
+        rec = [m for m in eq.methods.values() if m is not self.create and m not in (self.entry, self.run) and calls(m, self.create.name)]
         self.recycle = rec[0] if len(rec) == 1 else None
         # timeout handler: the remaining routine the dispatch routine calls (not the in-process player, not the recycle routine);
         # when the handling is written inline the dispatch routine itself plays the role
